@@ -141,7 +141,7 @@ def assign_ids(sc):
     return decl, builtin, timer_h
 
 
-def model_lines(sc, impl_log=None):
+def model_lines(sc, impl_log=None, ops=None):
     """setup + tape + ops for cvdriver core; returns (lines, index of first op line)"""
     decl, builtin, _ = assign_ids(sc)
     L = []
@@ -172,7 +172,7 @@ def model_lines(sc, impl_log=None):
     for e in (impl_log or []):
         L.append('tape ' + e)
     first = len(L)
-    for op in sc['ops']:
+    for op in (sc['ops'] if ops is None else ops):
         if op[0] == 'do':
             L.append(f'do {op[1]} ' + act_tokens(op[2]))
         elif op[0] in ('tick', 'flush', 'run'):
@@ -201,6 +201,7 @@ class World:
         self.bound = {}
         self.clock = 0
         self.blocked = False
+        self.ge_count = 0
         self.decl, self.builtin, self.timer_h = assign_ids(sc)
 
     # ---- logging helpers --------------------------------------------------------------
@@ -290,7 +291,8 @@ class World:
         elif k == 'reg':
             self.comps[a[1]].register(self.comps[a[2]])
         elif k == 'unreg':
-            self.comps[a[1]].unregister()
+            if self.comps[a[1]] is not None:
+                self.comps[a[1]].unregister()
         elif k == 'flush':
             comp.flush()
         elif k == 'stopMgr':
@@ -302,7 +304,8 @@ class World:
         elif k == 'timerNew':
             self.timer_new(a[1])
         elif k == 'timerReset':
-            self.timers[a[1]].reset()
+            if a[1] < len(self.timers) and self.timers[a[1]] is not None:
+                self.timers[a[1]].reset()
         else:
             raise ValueError(a)
         return None
@@ -320,11 +323,14 @@ class World:
         if not is_gen(prog):
             def body(self, event, *args, **kwargs):
                 world.emit(f'I {event._vid} {hid} 0')
-                for a in prog:
-                    r = world.do_act(self, event, a)
-                    if r is not None:
-                        return r[1]
-                return None
+                try:
+                    for a in prog:
+                        r = world.do_act(self, event, a)
+                        if r is not None:
+                            return r[1]
+                    return None
+                finally:
+                    world.emit(f'O {event._vid} {hid}')
         else:
             def gen(self, event):
                 eid = event._vid
@@ -364,6 +370,7 @@ class World:
                 world.emit(f'I {event._vid} {hid} 0')
                 g = gen(self, event)
                 world.new_gen(g)
+                world.emit(f'O {event._vid} {hid}')
                 return g
         body.__name__ = f'h{hid}'
         kw = {'priority': h.get('prio', 0)}
@@ -419,6 +426,8 @@ class World:
 
     def timer_new(self, t):
         from circuits.core.timers import Timer
+        if t < len(self.timers) and self.timers[t] is not None:
+            return
         idx = [i for i, c in enumerate(self.sc['comps']) if c.get('timer') is not None][t]
         spec = self.sc['comps'][idx]['timer']
         ev = self.mk_event(spec['tmpl'])
@@ -440,14 +449,32 @@ class World:
         from circuits.core.manager import Manager
         world = self
         o_fire, o_disp, o_pt, o_rt = Manager.fireEvent, Manager._dispatcher, Manager.processTask, Manager.registerTask
+        EQ = manager._EventQueue
+        o_de = EQ.dispatchEvents
+
+        def dispatchEvents(self, dispatcher):
+            if self._flush_batch == 0:
+                world.emit(f'B {len(self._queue)}')
+            return o_de(self, dispatcher)
 
         def fireEvent(self, event, *channels, **kwargs):
-            vid = world.next_vid
-            world.next_vid += 1
+            if event.name == 'generate_events':
+                # loop overhead: every iteration of a running loop takes one clock tick
+                world.clock += 1
+                world.ge_count += 1
+                if world.ge_count > 4000:
+                    world.blocked = True
+                    for c in world.comps:
+                        if c is not None:
+                            c._running = False
             if getattr(event, '_vid', None) is not None:
                 world.fired_twice.add(id(event))
-            event._vid = vid
-            world.events[vid] = event
+                vid = event._vid
+            else:
+                vid = world.next_vid
+                world.next_vid += 1
+                event._vid = vid
+                world.events[vid] = event
             value = o_fire(self, event, *channels, **kwargs)
             chans = ','.join(world.chan_tok(c) for c in event.channels) or '-'
             world.emit(f"F {vid} {name_token(event.name)} {chans} {prio_tok(kwargs.get('priority', 0))}")
@@ -455,6 +482,7 @@ class World:
 
         def _dispatcher(self, event, channels, remaining):
             world.emit(f'D {event._vid}')
+            event._disp_root = self
             return o_disp(self, event, channels, remaining)
 
         def processTask(self, event, task, parent=None):
@@ -464,6 +492,38 @@ class World:
         def registerTask(self, g):
             world.new_gen(g[1])
             return o_rt(self, g)
+
+        KIND = {'_on_event': 1, '_on_done': 2, '_on_tick': 3, '_on_prepare_unregister_complete': 4}
+
+        def handler_get(ev):
+            return ev.__dict__.get('_h')
+
+        def handler_set(ev, h):
+            ev.__dict__['_h'] = h
+            if h is None or not hasattr(ev, '_vid'):
+                return
+            fname = getattr(h, '__name__', '')
+            owner = getattr(h, '__self__', None)
+            code = KIND.get(fname)
+            if code is None and fname == '_on_generate_events':
+                code = 6 if isinstance(owner, helpers.FallBackGenerator) else 5
+            if code is None and fname == '_on_exception' and isinstance(owner, helpers.FallBackExceptionHandler):
+                code = 7
+            if code is not None:
+                if code in (1, 2, 3):
+                    oi = 0
+                    for cell in (getattr(getattr(h, '__func__', h), '__closure__', None) or ()):
+                        try:
+                            st = cell.cell_contents
+                        except ValueError:
+                            continue
+                        if type(st).__name__ == '_State':
+                            oi = world.gen_ids.get(id(st.task), 0)
+                elif code in (6, 7):
+                    oi = world.comps.index(ev._disp_root) if getattr(ev, '_disp_root', None) in world.comps else 0
+                else:
+                    oi = world.comps.index(owner) if owner in world.comps else 0
+                world.emit(f'H {ev._vid} {code} {oi}')
 
         class EventDouble:
             def __init__(self):
@@ -500,10 +560,13 @@ class World:
         saved = (helpers.Event, helpers.stderr, manager.stderr, manager.TIMEOUT, manager.time, timers.time)
         import signal as _signal
         old_int, old_term = _signal.getsignal(_signal.SIGINT), _signal.getsignal(_signal.SIGTERM)
+        import circuits.core.events as cevents
+        cevents.Event.handler = property(handler_get, handler_set)
         Manager.fireEvent = Manager.fire = fireEvent
         Manager._dispatcher = _dispatcher
         Manager.processTask = processTask
         Manager.registerTask = registerTask
+        EQ.dispatchEvents = dispatchEvents
         helpers.Event = EventDouble
         helpers.stderr = Sink()
         manager.stderr = Sink()
@@ -513,44 +576,91 @@ class World:
         try:
             yield
         finally:
+            del cevents.Event.handler
             Manager.fireEvent = Manager.fire = o_fire
             Manager._dispatcher = o_disp
             Manager.processTask = o_pt
             Manager.registerTask = o_rt
+            EQ.dispatchEvents = o_de
             (helpers.Event, helpers.stderr, manager.stderr, manager.TIMEOUT, manager.time, timers.time) = saved
             if threading.current_thread() is threading.main_thread():
                 _signal.signal(_signal.SIGINT, old_int)
                 _signal.signal(_signal.SIGTERM, old_term)
 
     # ---- running ------------------------------------------------------------------------
+    def subtree(self, c):
+        out = [c]
+        for k in c.components:
+            out += self.subtree(k)
+        return out
+
+    def installed(self, hid):
+        m = self.bound.get(hid)
+        if m is None:
+            return False
+        owner = self.comps[self.owner_of(hid)]
+        return m in owner._globals or any(m in s for s in owner._handlers.values())
+
+    def expand(self, op):
+        """resolve a conditional op against the live object graph -> list of concrete ops"""
+        k = op[0]
+        if k == 'maybe_reg':
+            c, p = self.comps[op[1]], self.comps[op[2]]
+            if c is None or p is None or c is p or c.parent is not c or c.unregister_pending:
+                return []
+            if p in self.subtree(c):
+                return []
+            if c._executing_thread is not None and p.root._executing_thread is not None:
+                return []
+            return [['do', op[1], ['reg', op[1], op[2]]]]
+        if k == 'maybe_rmH':
+            return [['do', 0, ['rmH', op[1], None]]] if self.installed(op[1]) else []
+        if k == 'quiesce':
+            c = self.comps[op[1]]
+            if c is None or c.parent is not c:
+                return []
+            return [['tick', op[1]]] if (len(c._queue) or c._tasks) else []
+        return [op]
+
     def run(self):
-        """returns list of per-op results: (status, [log entries])"""
+        """returns list of per-op results: (status, [log entries]); self.ops = the concrete ops executed"""
         import atexit
+        self.ops = []
         with self.instrumented():
             self.build()
-            for op in self.sc['ops']:
-                start = len(self.log)
-                status = 'ok'
-                try:
-                    if op[0] == 'do':
-                        self.do_act(self.comps[op[1]], None, op[2])
-                    elif op[0] == 'tick':
-                        self.comps[op[1]].tick()
-                    elif op[0] == 'flush':
-                        self.comps[op[1]].flush()
-                    elif op[0] == 'run':
-                        m = self.comps[op[1]]
-                        try:
-                            m.run()
-                        finally:
-                            atexit.unregister(m.stop)
-                    elif op[0] == 'adv':
-                        self.clock += op[1]
-                except SystemExit as e:
-                    status = f'exn sysexit {opt(e.code)}'
-                self.oplogs.append((status, self.log[start:]))
-                if self.blocked:
-                    break
+            pending = list(self.sc['ops'])
+            budget = 400
+            while pending and budget > 0:
+                raw = pending.pop(0)
+                conc = self.expand(raw)
+                if raw[0] == 'quiesce' and conc:
+                    pending.insert(0, raw)      # keep ticking until idle
+                for op in conc:
+                    budget -= 1
+                    start = len(self.log)
+                    status = 'ok'
+                    try:
+                        if op[0] == 'do':
+                            self.do_act(self.comps[op[1]], None, op[2])
+                        elif op[0] == 'tick':
+                            self.comps[op[1]].tick()
+                        elif op[0] == 'flush':
+                            self.comps[op[1]].flush()
+                        elif op[0] == 'run':
+                            m = self.comps[op[1]]
+                            try:
+                                m.run()
+                            finally:
+                                atexit.unregister(m.stop)
+                        elif op[0] == 'adv':
+                            self.clock += op[1]
+                    except SystemExit as e:
+                        status = f'exn sysexit {opt(e.code)}'
+                    self.ops.append(op)
+                    self.oplogs.append((status, self.log[start:]))
+                    if self.blocked:
+                        pending = []
+                        break
         return self.oplogs
 
     def tree(self):
@@ -603,7 +713,7 @@ def run_both(ctx, scenarios):
             rec['error'] = f'{type(e).__name__}: {e}\n{traceback.format_exc()[-1500:]}'
             rec['impl'] = w.oplogs
             rec['blocked'] = w.blocked
-        lines, first = model_lines(sc, w.log)
+        lines, first = model_lines(sc, w.log, getattr(w, 'ops', []))
         rec['first'] = first
         rec['lines'] = lines
         cases_lines.append(lines)
@@ -615,7 +725,7 @@ def run_both(ctx, scenarios):
         bad = [(l, a) for l, a in zip(rec['lines'][:first], setup) if not a.startswith('ok')]
         if bad:
             rec['error'] = (rec['error'] or '') + f' model setup rejected: {bad[:3]}'
-        nops = len(rec['sc']['ops'])
+        nops = len(getattr(rec['world'], 'ops', []))
         model_ops = []
         for a in ans[first:first + nops]:
             head, _, tail = a.partition(' | ')
